@@ -10,6 +10,9 @@ func PanicClass(msg string) string {
 		return "over-reserve"
 	case strings.Contains(msg, "reserve non-existent offering"):
 		return "unknown-reservation"
+	case strings.Contains(msg, "already allocated"), strings.Contains(msg, "missing reference count for device"),
+		strings.Contains(msg, "inflight allocation metadata for device"):
+		return "dra-tracker" // the AllocationTracker's own assertions (device / claim allocated twice)
 	}
 	return "other"
 }
